@@ -7,7 +7,9 @@ pub mod c03;
 pub mod c04;
 pub mod c05;
 pub mod c06;
+pub mod c07;
 pub mod c08;
+pub mod c09;
 pub mod c12;
 pub mod c13;
 pub mod c14;
@@ -22,7 +24,9 @@ pub fn run(id: &str, thorough: bool) -> Option<Outcome> {
         "C04" => Some(c04::run(thorough)),
         "C05" => Some(c05::run(thorough)),
         "C06" => Some(c06::run(thorough)),
+        "C07" => Some(c07::run(thorough)),
         "C08" => Some(c08::run(thorough)),
+        "C09" => Some(c09::run(thorough)),
         "C12" => Some(c12::run(thorough)),
         "C13" => Some(c13::run(thorough)),
         "C14" => Some(c14::run(thorough)),
@@ -40,7 +44,9 @@ pub fn replay(id: &str, ex: &Value) -> Option<Report> {
         "C04" => Some(c04::replay(ex)),
         "C05" => Some(c05::replay(ex)),
         "C06" => Some(c06::replay(ex)),
+        "C07" => Some(c07::replay(ex)),
         "C08" => Some(c08::replay(ex)),
+        "C09" => Some(c09::replay(ex)),
         "C12" => Some(c12::replay(ex)),
         "C13" => Some(c13::replay(ex)),
         "C14" => Some(c14::replay(ex)),
